@@ -11,13 +11,22 @@ swvars == <<st, phase, hist, nTx, nFail, todo>>
 SweepTail == <<EndEv, ComEv, [a |-> "BeginBlock", dt |-> 1000],
                Tx(<<[t |-> "SClaim", sender |-> "A1", receiver |-> "A2"]>>), Tx(<<[t |-> "SClaim", sender |-> "A2", receiver |-> "A3"]>>), EndEv, ComEv>>
 
+\* degenerate inputs (zero amounts and rates, durations just below the minimum, an empty denomination): stateless
+\* validation must refuse each of them whole
+Degenerate ==
+  { Tx(<<SCreate("A3", "A2", dep, "nund", rate)>>) : dep \in {0, 119, 120}, rate \in {0, 2} }
+  \cup { Tx(<<[t |-> "STopUp", sender |-> "A1", receiver |-> "A2", dep |-> 0, denom |-> "nund"]>>),
+         Tx(<<[t |-> "SRate", sender |-> "A1", receiver |-> "A2", rate |-> 0]>>),
+         Tx(<<[t |-> "Send", from |-> "A1", to |-> "A2", amt |-> 0, denom |-> "nund"]>>) }
+SweepAlphabet == TxAlphabet \cup Degenerate
+
 SwInit ==  /\ st = StateOf(Gen) /\ hist = <<[a |-> "InitChain", g |-> Gen]>>
           /\ todo = SweepPrefix /\ phase = "prefix" /\ nTx = 0 /\ nFail = 0
 SwRun == /\ todo # <<>>
          /\ st' = Step(st, Head(todo)).st /\ hist' = Append(hist, Head(todo)) /\ todo' = Tail(todo)
          /\ UNCHANGED <<phase, nTx, nFail>>
 SwChoose == /\ todo = <<>> /\ phase = "prefix"
-            /\ \E ev \in TxAlphabet :
+            /\ \E ev \in SweepAlphabet :
                  /\ st' = Step(st, ev).st /\ hist' = Append(hist, ev)
                  /\ todo' = SweepTail /\ phase' = "tail" /\ nTx' = 1 /\ UNCHANGED nFail
 SwDone == todo = <<>> /\ phase = "tail" /\ phase' = "done" /\ UNCHANGED <<st, hist, nTx, nFail, todo>>
